@@ -203,7 +203,8 @@ def gen_program(rng, small=False):
                     budget -= size
                     p.append(size)
                 pads.append(p)
-            mode = rng.choice(("receive", "iter", "callback", "compete", "poll"))
+            # (at most one polling consumer per program: several of them spinning starve the other threads of a loaded machine)
+            mode = rng.choice(("receive", "iter", "callback", "compete") + (("poll",) if not any(dd.get("mode") == "poll" for c_ in chans + [ch] for dd in c_["dirs"].values()) else ()))
             ch["dirs"][d] = {"pads": pads, "mode": mode, "nrecv": rng.choice((2, 3)) if mode == "compete" else 1,
                              # when the receiving end is attached: before any send, or while items are already in flight/queued
                              "attach": rng.choice((None, None, 0.0, 0.001, 0.004))}
